@@ -4,7 +4,11 @@ package main
 // Skolem constants of the goal and at the ground index terms of the query. Dropping the quantified
 // hypotheses afterwards only weakens the hypotheses, so `unsat` of the instantiated query is sound.
 
-import "sort"
+import (
+	"fmt"
+	"sort"
+	"strings"
+)
 
 // skolemize replaces positively occurring universal quantifiers of the goal by fresh constants.
 func skolemize(g *Term, sks *[]*Term) *Term {
@@ -402,9 +406,51 @@ func (q *Query) Sliced(rounds int) *Query {
 
 // Scalarized replaces every closed scalar-sorted select/UF-free array read by a fresh variable (identical reads
 // share the variable). Relations between different reads are lost, so only `unsat` is meaningful - and sound.
-func (q *Query) Scalarized() *Query {
+// With absArith, multiplications and divisions become uninterpreted functions too (an abstraction: still sound for `unsat`).
+func (q *Query) Scalarized(absArith bool) *Query {
 	m := map[*Term]*Term{}
 	cache := map[*Term]*Term{}
+	// uninterpreted applications whose array arguments are the same everywhere keep their scalar arguments
+	// (so congruence on those still works); the shared array arguments are dropped
+	sameArr := map[string][]*Term{}
+	okArr := map[string]bool{}
+	{
+		seen := map[*Term]bool{}
+		var scan func(t *Term)
+		scan = func(t *Term) {
+			if seen[t] {
+				return
+			}
+			seen[t] = true
+			if strings.HasPrefix(t.Op, "app:") && hasArrayArg(t) {
+				var arrs []*Term
+				for _, a := range t.Args {
+					if a.S.K == KArray {
+						arrs = append(arrs, a)
+					}
+				}
+				if prev, ok := sameArr[t.Op]; !ok {
+					sameArr[t.Op] = arrs
+					okArr[t.Op] = true
+				} else if len(prev) != len(arrs) {
+					okArr[t.Op] = false
+				} else {
+					for i := range arrs {
+						if arrs[i] != prev[i] {
+							okArr[t.Op] = false
+						}
+					}
+				}
+			}
+			for _, a := range t.Args {
+				scan(a)
+			}
+		}
+		scan(q.Goal)
+		for _, h := range q.Hyps {
+			scan(h)
+		}
+	}
 	var rec func(t *Term) *Term
 	rec = func(t *Term) *Term {
 		if r, ok := cache[t]; ok {
@@ -416,7 +462,24 @@ func (q *Query) Scalarized() *Query {
 			// push reads through conditionals so that the stored values become visible
 			a := t.Args[0]
 			r = Ite(rec(a.Args[0]), rec(Select(a.Args[1], t.Args[1])), rec(Select(a.Args[2], t.Args[1])))
-		case t.Op == "select" && t.S.K != KArray && len(t.fb) == 0:
+		case strings.HasPrefix(t.Op, "app:") && hasArrayArg(t) && okArr[t.Op] && t.S.K != KArray:
+			var sargs []*Term
+			for _, a := range t.Args {
+				if a.S.K != KArray {
+					sargs = append(sargs, rec(a))
+				}
+			}
+			r = App(t.Op[4:]+"_s", t.S, sargs...)
+		case t.Op == "select" && t.S.K != KArray:
+			// a read becomes an uninterpreted function of its indices, one function per array term
+			base := t
+			var idx []*Term
+			for base.Op == "select" {
+				idx = append([]*Term{rec(base.Args[1])}, idx...)
+				base = base.Args[0]
+			}
+			r = App(fmt.Sprintf("rd_%d", base.id), t.S, idx...)
+		case (t.Op == "select" || (strings.HasPrefix(t.Op, "app:") && hasArrayArg(t))) && t.S.K != KArray && len(t.fb) == 0:
 			v, ok := m[t]
 			if !ok {
 				v = FreshVar("rd", t.S)
@@ -425,6 +488,8 @@ func (q *Query) Scalarized() *Query {
 			r = v
 		case len(t.Args) == 0:
 			r = t
+		case absArith && len(t.Args) == 2 && (t.Op == "bvmul" || t.Op == "bvudiv" || t.Op == "bvsdiv" || t.Op == "bvurem" || t.Op == "bvsrem"):
+			r = App(fmt.Sprintf("abs_%s%d", t.Op, t.S.W), t.S, rec(t.Args[0]), rec(t.Args[1]))
 		default:
 			args := make([]*Term, len(t.Args))
 			ch := false
@@ -485,4 +550,61 @@ func mentionsArray(t *Term) bool {
 		return false
 	}
 	return rec(t)
+}
+
+func hasArrayArg(t *Term) bool {
+	for _, a := range t.Args {
+		if a.S.K == KArray {
+			return true
+		}
+	}
+	return false
+}
+
+// AbstractArith replaces multiplications and divisions by uninterpreted functions (an abstraction: `unsat` stays sound).
+// Returns nil when the query has none.
+func (q *Query) AbstractArith() *Query {
+	cache := map[*Term]*Term{}
+	changed := false
+	var rec func(t *Term) *Term
+	rec = func(t *Term) *Term {
+		if r, ok := cache[t]; ok {
+			return r
+		}
+		var r *Term
+		switch {
+		case len(t.Args) == 0:
+			r = t
+		case len(t.Args) == 2 && (t.Op == "bvmul" || t.Op == "bvudiv" || t.Op == "bvsdiv" || t.Op == "bvurem" || t.Op == "bvsrem"):
+			changed = true
+			r = App(fmt.Sprintf("abs_%s%d", t.Op, t.S.W), t.S, rec(t.Args[0]), rec(t.Args[1]))
+		default:
+			args := make([]*Term, len(t.Args))
+			ch := false
+			for i, a := range t.Args {
+				args[i] = rec(a)
+				if args[i] != a {
+					ch = true
+				}
+			}
+			if ch {
+				r = rebuild(t, args)
+			} else {
+				r = t
+			}
+		}
+		cache[t] = r
+		return r
+	}
+	out := &Query{Extra: q.Extra, FPMode: q.FPMode}
+	if q.Goal != nil {
+		out.Goal = rec(q.Goal)
+	}
+	for _, h := range q.Hyps {
+		out.Hyps = append(out.Hyps, rec(h))
+	}
+	if !changed {
+		return nil
+	}
+	return out
 }
